@@ -103,6 +103,9 @@ class Engine:
         self.fresh = 0
         self.info = {}
         self.unknowns = 0
+        self.retries = 0
+        self.retry_unknown = True
+        self._retry_solver = None
 
     # ---- solver helpers ----------------------------------------------------------------------
     def _new_solver(self):
@@ -112,10 +115,27 @@ class Engine:
             s.set("random_seed", self.seed & 0x7FFFFFFF)
         return s
 
+    def _solve(self, assume):
+        """one query; a give-up (time limit) is retried once in a fresh solver with another seed and three times the limit
+        (a loaded machine must not turn a decidable query into 'unknown')"""
+        self._retry_solver = None
+        r = self.solver.check(*assume)
+        if r == z3.unknown and self.retry_unknown and not getattr(self, '_deadline_passed', lambda: False)():
+            s2 = z3.Solver()
+            s2.set("timeout", min(self.query_timeout_ms * 3, 900000))
+            s2.set("random_seed", 7 + (self.seed & 0xFFFF))
+            s2.add(*self.solver.assertions())
+            r2 = s2.check(*assume)
+            self.retries += 1
+            if r2 != z3.unknown:
+                self._retry_solver = s2
+                return r2
+        return r
+
     def check(self, *assume):
         """satisfiability of pc ∧ assume: True / False; raises SolverUnknown"""
         t = time.time()
-        r = self.solver.check(*assume)
+        r = self._solve(assume)
         self.tcheck += time.time() - t
         self.nchecks += 1
         if r == z3.unknown:
@@ -126,7 +146,7 @@ class Engine:
     def check3(self, *assume):
         """like check but returns 'sat' / 'unsat' / 'unknown' without raising"""
         t = time.time()
-        r = self.solver.check(*assume)
+        r = self._solve(assume)
         self.tcheck += time.time() - t
         self.nchecks += 1
         if r == z3.unknown:
@@ -134,6 +154,8 @@ class Engine:
         return str(r)
 
     def model(self):
+        if self._retry_solver is not None:
+            return self._retry_solver.model()
         return self.solver.model()
 
     def fresh_name(self, base):
@@ -182,7 +204,7 @@ class Engine:
                 pass
         ok = self.check(c)
         if ok:
-            self._alt_model = self.solver.model()
+            self._alt_model = self.model()
         return ok
 
     def _tick(self):
@@ -251,10 +273,10 @@ class Engine:
         else:
             t_ok = self.check(c)
             if t_ok:
-                self._model = self.solver.model()
+                self._model = self.model()
             f_ok = self.check(nc)
             if f_ok and not t_ok:
-                self._model = self.solver.model()
+                self._model = self.model()
         if t_ok and f_ok:
             self.trail.append(['b', True, True])
             self.pos += 1
@@ -322,7 +344,7 @@ class Engine:
         if m is None:
             if not self.check():
                 raise Abort("infeasible")
-            m = self._model = self.solver.model()
+            m = self._model = self.model()
         v = m.eval(t, model_completion=True)
         if self.check(t != v):
             return None
@@ -365,7 +387,7 @@ class Engine:
             if m is None:
                 if not self.check():
                     raise Abort("infeasible")
-                m = self._model = self.solver.model()
+                m = self._model = self.model()
             v = m.eval(t, model_completion=True).as_signed_long()
         # eager uniqueness test on the live incremental solver
         more = self.check(t != v)
